@@ -210,6 +210,13 @@ pub fn run_c18(cfg: &RunCfg, stats: &mut Stats, extra: &mut Value) -> Outcome {
         Ok(x) => x,
         Err(e) => return Outcome::Inconclusive(e),
     };
+    if code == 3 {
+        if let Some(line) = out.lines().find(|l| l.starts_with("DEADLOCK ")) {
+            let v: Value = serde_json::from_str(&line[9..]).unwrap_or(Value::Null);
+            let f = Fail::new("C18:deadlock", format!("concurrent expansion never finished ({}): all {} unfinished of {} worker threads sat asleep without using any CPU time for 25 s, so none of them can wake another any more, while the same work on one thread finishes", v["what"].as_str().unwrap_or("?"), v["blocked"], v["threads"]));
+            return Outcome::Violation(Violation { replay: json!({"property": "C18", "kind": "concurrent", "clause": f.clause, "detail": f.detail, "case": v["case"], "seed": cfg.seed, "note": "schedule dependent: the replay re-runs the case up to 60 times"}), fail: f });
+        }
+    }
     if code != 0 {
         return Outcome::Inconclusive(format!("c18_conc exited with {}: {}", code, err.lines().take(10).collect::<Vec<_>>().join(" | ")));
     }
@@ -316,7 +323,8 @@ pub fn replay_c18(v: &Value) -> Result<Option<Fail>, String> {
             let _ = std::fs::remove_file(&tmp);
             let (code, out, _e) = r?;
             if code == 1 {
-                Ok(Some(Fail::new("C18:transcript", out)))
+                let clause = if out.contains("DEADLOCK ") { "C18:deadlock" } else { "C18:transcript" };
+                Ok(Some(Fail::new(clause, out.chars().take(1500).collect())))
             } else if code == 0 {
                 Ok(None)
             } else {
